@@ -229,6 +229,8 @@ class SimHandler : public DirectProtocolHandler {
   void notifyDeviceStatus(bool error, const char* message) override { diag.push_back(message); }
   std::vector<std::string> diag;
   bool takeFinished(BusRequest* r) { return m_finishedRequests.remove(r); }
+  /** requests left in the finished queue (nobody will ever collect them): removed and returned */
+  std::vector<BusRequest*> drainFinished() { std::vector<BusRequest*> v; while (BusRequest* r = m_finishedRequests.pop()) v.push_back(r); return v; }
   const void* waitCond() { return &m_cond; }
   // not started as a thread: run() executes exactly one loop iteration, because isRunning() is false at the loop condition.
   // With steppedReopen the iteration that finds the device invalid may pass its Wait() (two isRunning() calls inside
